@@ -3,6 +3,8 @@ use samlang_ast::{hir, lir, mir, wasm};
 use samlang_heap::{Heap, ModuleReference, PStr};
 use std::collections::{BTreeMap, HashMap};
 
+use crate::mir_tail_recursion_rewrite::is_context_parameter;
+
 struct TypeLoweringContext<'a> {
   function_type_mapping: HashMap<wasm::FunctionType, mir::TypeNameId>,
   heap: &'a mut Heap,
@@ -161,7 +163,11 @@ impl<'a> LoweringManager<'a> {
     // For closure functions (first param named "_this"), get the explicit type name.
     // This is needed for call_indirect to work correctly - the function's type must
     // match the type used in call_indirect exactly.
-    let type_name = if function.parameters.first() == Some(&PStr::UNDERSCORE_THIS) {
+    let type_name = if function
+      .parameters
+      .first()
+      .is_some_and(|p| is_context_parameter(instance.type_cx.heap, *p))
+    {
       Some(instance.type_cx.lower_function_type(&function.type_))
     } else {
       None
@@ -563,7 +569,7 @@ impl<'a> LoweringManager<'a> {
 
   /// Lower an expression that is stored into a variable of type `target`. A variable kept as a
   /// generic `(ref eq)` (e.g. the `_this` of a method) needs a downcast when the target is a
-  /// specific struct type, otherwise the emitted module does not validate.
+  /// specific struct type or i31, otherwise the emitted module does not validate.
   fn lower_expr_assigned_to(
     &mut self,
     e: &lir::Expression,
@@ -571,13 +577,14 @@ impl<'a> LoweringManager<'a> {
   ) -> wasm::InlineInstruction {
     if let lir::Expression::Variable(n, _) = e
       && matches!(self.local_variables.get(n), Some(wasm::Type::Eq))
-      && let wasm::Type::Reference(target_ref) = target
+      && let Some(pointer_type) = match target {
+        wasm::Type::Reference(target_ref) => Some(lir::Type::Id(target_ref)),
+        wasm::Type::Int31 => Some(lir::Type::Int31),
+        wasm::Type::Int32 | wasm::Type::Eq => None,
+      }
     {
       let local_get = self.get_without_type_update(*n);
-      return wasm::InlineInstruction::Cast {
-        pointer_type: lir::Type::Id(target_ref),
-        value: Box::new(local_get),
-      };
+      return wasm::InlineInstruction::Cast { pointer_type, value: Box::new(local_get) };
     }
     self.lower_expr(e)
   }
